@@ -1,6 +1,7 @@
 import Pyunicorn.Model.Proto
 import Pyunicorn.Model.Access
 import Pyunicorn.Model.WhileKernels
+import Pyunicorn.Generated.StructC20Pyx
 /-! Line-protocol driver of C20: access traces / verdicts of the raw-pointer
 routines and outcomes of the `while` kernels. -/
 open Pyunicorn Pyunicorn.Proto Pyunicorn.Access
@@ -8,6 +9,17 @@ open Pyunicorn Pyunicorn.Proto Pyunicorn.Access
 def orat (s : String) : Option Rat := if s == "nan" then none else rat? s
 def orats (s : String) : List (Option Rat) := (splitTok s ",").map orat
 def odata (s : String) : Data := (splitTok s ";").map orats
+
+def xr (s : String) : XR :=
+  if s == "nan" then .nan else if s == "inf" then .pinf else if s == "-inf" then .ninf
+  else match rat? s with
+    | some r => .fin r
+    | none => .nan
+def xdata (s : String) : List (List XR) := (splitTok s ";").map fun row => (splitTok row ",").map xr
+def xat (d : List (List XR)) (i k : Nat) : XR := (d.getD i []).getD k .nan
+/-- is some float→int conversion undefined over the `n × t` samples? -/
+def xUndef (sc rm : XR) (nb : Int) (d : List (List XR)) (n t : Nat) : Bool :=
+  (List.range n).any fun i => (List.range t).any fun k => (symbolX sc rm nb (xat d i k)).isNone
 
 def accKey (a : Acc) : Nat × Int × Nat × Nat := (a.arr, a.off, a.w, if a.wr then 1 else 0)
 
@@ -25,6 +37,36 @@ def showTrace (sz : List Nat) (keep : Nat) (tr : List Acc) : String :=
   let ks := dedupSorted (((tr.filter (·.arr < keep)).map accKey).mergeSort keyLe)
   let body := ks.map fun (a, o, w, k) => s!"{a}:{o}:{w}:{if k == 1 then "w" else "r"}"
   (verdictOf sz tr).str ++ "|" ++ (if body.isEmpty then "-" else join body)
+
+/-! ### typed-buffer kernels: outcome predicted from the generated site lists -/
+open Pyunicorn.Generated.StructC20Pyx in
+/-- `name=value,...` -/
+def kvs (s : String) : List (String × Int) :=
+  (splitTok s ",").filterMap fun t =>
+    match t.splitOn "=" with
+    | [k, v] => some (k, v.toInt!)
+    | _ => none
+
+def envOf (kv : List (String × Int)) : String → Int :=
+  fun s => ((kv.find? (·.1 == s)).map (·.2)).getD 0
+
+/-- all assignments of the loop variables to values in `[-1, B]` on top of `kv` -/
+def allEnvs (vars : List String) (B : Int) (kv : List (String × Int)) : List (List (String × Int)) :=
+  vars.foldl (fun acc x => acc.flatMap fun e =>
+    (List.range (B + 2).toNat).map fun (d : Nat) => (x, (d : Int) - 1) :: e) [kv]
+
+open Pyunicorn.Generated.StructC20Pyx in
+/-- `raise`: some index that is evaluated unconditionally leaves its axis for loop-variable values
+in their ranges (IndexError under `boundscheck=True`); `ok`: no listed index ever does;
+`either`: only conditionally evaluated ones do -/
+def predictKernel (key : String) (B : Int) (kv : List (String × Int)) : String :=
+  match kernel_table.find? (·.1 == key) with
+  | none => "unknown-kernel"
+  | some (_, sites, lv) =>
+    let es := allEnvs lv B kv
+    let bad (s : PSite) : Bool := s.g && !(decide (0 ≤ s.idx) && decide (s.idx < s.dim))
+    if es.any (fun e => (sites (envOf e)).any fun s => bad s && !s.cond) then "raise"
+    else if es.any (fun e => (sites (envOf e)).any bad) then "either" else "ok"
 
 def answer (toks : List String) : String :=
   match toks with
@@ -47,6 +89,22 @@ def answer (toks : List String) : String :=
       showTrace (tmiSizes n.toNat! t.toNat! n.toNat! t.toNat! nbn) 8
         (tmiTrace n.toNat! t.toNat! nbn (fun i k => symbol (orat sc) (orat rm) nbn (o.at i k))
           (fun i k => symbol (orat sc) (orat rm) nbn (s.at i k)))
+  | ["tracex", "mi", n, t, nb, sc, rm, d] =>
+      -- data / scaling / range_min with infinities (`inf`, `-inf`, `nan` tokens)
+      let dd := xdata d
+      let nbn := nb.toNat!
+      if xUndef (xr sc) (xr rm) nbn dd n.toNat! t.toNat! then "undefined-conversion" else
+      showTrace (miSizes n.toNat! t.toNat! nbn) 5
+        (miTrace n.toNat! t.toNat! nbn (fun i k => (symbolX (xr sc) (xr rm) nbn (xat dd i k)).getD 0))
+  | ["tracex", "tmi", n, t, nb, sc, rm, dO, dS] =>
+      let o := xdata dO
+      let s := xdata dS
+      let nbn := nb.toNat!
+      if xUndef (xr sc) (xr rm) nbn o n.toNat! t.toNat! || xUndef (xr sc) (xr rm) nbn s n.toNat! t.toNat!
+      then "undefined-conversion" else
+      showTrace (tmiSizes n.toNat! t.toNat! n.toNat! t.toNat! nbn) 8
+        (tmiTrace n.toNat! t.toNat! nbn (fun i k => (symbolX (xr sc) (xr rm) nbn (xat o i k)).getD 0)
+          (fun i k => (symbolX (xr sc) (xr rm) nbn (xat s i k)).getD 0))
   | ["trace", "vcfb", n, i] => showTrace (cfbSizes n.toNat!) 3 (vcfbTrace n.toNat! i.toInt!)
   | ["trace", "ecfb", n] => showTrace (cfbSizes n.toNat!) 3 (ecfbTrace n.toNat!)
   | ["call", "spearman", mm, mt, m, t] =>
@@ -65,6 +123,7 @@ def answer (toks : List String) : String :=
       (if WhileKernels.tablesOK r.length n.toNat! (intMat sn) (ints ord) r then "valid|" else "any|") ++
       WhileKernels.showOutcome
         (WhileKernels.adaptive n.toNat! a.toNat! (intMat sn) (ints ord) r)
+  | ["psites", key, b, kv] => predictKernel key b.toInt! (kvs kv)
   | _ => "bad-request"
 
 def main : IO Unit := runDriver answer
